@@ -9,6 +9,7 @@ import (
 	"math"
 	"os"
 	"os/exec"
+	"strings"
 	"sync"
 
 	"github.com/mandykoh/prism"
@@ -493,7 +494,11 @@ func (c11) Run(t *tape.Tape, st *Stats) *Violation {
 	defer os.Remove(f.Name())
 	exe, _ := os.Executable()
 	cmd := exec.Command(exe, "trial", "-tape", f.Name())
-	cmd.Env = append(os.Environ(), "GOMAXPROCS="+[...]string{"1", "4", "16"}[int(t.Seed%3)])
+	// a trial is a fresh process: the race runtime's once-per-stack-pair
+	// de-duplication is wanted there (a racy 65536-iteration loop would otherwise
+	// print 65536 reports), unlike in the multi-run workers of C10 / C15
+	gorace := strings.NewReplacer("suppress_equal_stacks=0", "suppress_equal_stacks=1", "suppress_equal_addresses=0", "suppress_equal_addresses=1").Replace(os.Getenv("GORACE"))
+	cmd.Env = append(os.Environ(), "GORACE="+gorace, "GOMAXPROCS="+[...]string{"1", "4", "16"}[int(t.Seed%3)])
 	outb, err := cmd.Output()
 	var out [2]phaseResult
 	if jerr := json.Unmarshal(outb, &out); jerr != nil {
